@@ -26,7 +26,7 @@ RowsOK(f, j) ==
        /\ f.rows[i][1] < f.rows[i + 1][1] /\ f.rows[i][2] < f.rows[i + 1][2]
        /\ f.rows[i + 1][1] - f.rows[i][1] >= f.rows[i + 1][2] - f.rows[i][2]
   /\ f.dlen <= Cap(j)
-FileClauses(d, f, pid, uuid, prevseq) ==
+FileClauses(d, f, pid, uuid, prevseq, initutc) ==
   LET j == f.j
       wt == Clip(truth'[d], Lo(Win(j)), Hi(Win(j)))
       den == IF cfg.mode = "contU" THEN << Win(j) >> ELSE wt
@@ -39,13 +39,14 @@ FileClauses(d, f, pid, uuid, prevseq) ==
       <<"C07-continuous-layout", cfg.mode = "contU" /\ (Pairs(f.rows) # << <<Lo(Win(j)), 0>> >> \/ f.dlen # Cap(j))>>,
       <<"C06-attributes", f.attrs # Hdr.params[pid]>>,
       <<"C06-uuid", f.uuid # uuid>>,
+      <<"C06-start-timestamp", f.init_utc # initutc>>,     \* floor(start index * d / n) seconds, as a decimal string
       <<"C06-sequence-number", f.seq <= prevseq>>,
       <<"C04-file-name", ~f.name_ok>>})
 
-RECURSIVE FilesClauses(_, _, _, _, _)
-FilesClauses(d, fs, pid, uuid, prevseq) ==
+RECURSIVE FilesClauses(_, _, _, _, _, _)
+FilesClauses(d, fs, pid, uuid, prevseq, initutc) ==
   IF fs = <<>> THEN {}
-  ELSE FileClauses(d, fs[1], pid, uuid, prevseq) \cup FilesClauses(d, Tail(fs), pid, uuid, fs[1].seq)
+  ELSE FileClauses(d, fs[1], pid, uuid, prevseq, initutc) \cup FilesClauses(d, Tail(fs), pid, uuid, fs[1].seq, initutc)
 LastSeq(fs, prev) == IF fs = <<>> THEN prev ELSE fs[Len(fs)].seq
 
 \* observations common to write / close: directory content after the call
@@ -57,7 +58,7 @@ DirClauses(d) ==
     <<"C05-final-file-changed", E.changed # <<>>>>})
   \cup (IF \E i \in 1..Len(E.newf) : E.newf[i].j \notin 1..NW
         THEN {"C04-file-outside-the-written-period"}      \* a file for a period no accepted call touched
-        ELSE FilesClauses(d, E.newf, s.pid, E.uuid, tseq))
+        ELSE FilesClauses(d, E.newf, s.pid, E.uuid, tseq, E.initutc))
 
 NotObserved == 0 - 1   \* the C API has no written / gap counters
 Crashed == Has(E, "resp") /\ E.resp = "crash"
